@@ -44,7 +44,7 @@ Section Copy.
   Notation m := (zlen s1).
   Notation n := (zlen s2).
   Notation k := (thr m).
-  Hypothesis IND1 : indel_cost cfg = 1.
+  Hypothesis IND_pos : 1 <= indel_cost cfg.
   Hypothesis k_nonneg : 0 <= k.
   Hypothesis k_le_m : k <= m.
   Hypothesis thr_nonneg : forall L, 0 <= thr L.
@@ -194,8 +194,8 @@ Section Copy.
       assert (Hc2' : c2 = znth 0 s2 (j - 1)).
       { unfold znth. destruct (j - 1 <? 0) eqn:E; [lia|]. congruence. }
       assert (Hjn : 1 <= j <= n) by (unfold zlen in *; lia).
-      destruct (column_step_d eqc thr cfg rawref s1 s2 ltac:(rewrite IND1; lia) c2 j st Hsd Hjn Hc2') as [Hs Hstop]. cbv zeta in Hs, Hstop.
-      pose proof (column_step_L eqc thr cfg rawref s1 s2 IND1 k_nonneg c2 j st Hsd Hsl Hjn Hc2') as HsL.
+      destruct (column_step_d eqc thr cfg rawref s1 s2 IND_pos c2 j st Hsd Hjn Hc2') as [Hs Hstop]. cbv zeta in Hs, Hstop.
+      pose proof (column_step_L eqc thr cfg rawref s1 s2 IND_pos k_nonneg c2 j st Hsd Hsl Hjn Hc2') as HsL.
       destruct (column_step_copy c2 j st Hsd Hsl Hr0 Hdg Hjn Hc2') as (Hr0' & Hdg' & Hb'). cbv zeta in *.
       destruct (stopped (column_step eqc thr cfg rawref s1 n c2 j st)) eqn:Est.
       + destruct (Hstop eq_refl) as [H0 _]. unfold has_best. rewrite H0. unfold no_best. pose proof (zlen_nonneg s2). lia.
@@ -214,7 +214,7 @@ Section Copy.
     assert (Hn : 0 <= n) by apply zlen_nonneg.
     assert (Hnz : forall cnt lo t d, (t < cnt)%nat -> nth t (zrange lo cnt) d = lo + Z.of_nat t).
     { induction cnt as [|cn IH]; intros lo t d Ht; [lia|]. destruct t as [|t']; cbn [zrange nth]; [lia|]. rewrite IH by lia. lia. }
-    destruct (locate_core_init eqc thr cfg s1 s2 IND1 k_nonneg) as (Hsd0 & Hsl0).
+    destruct (locate_core_init eqc thr cfg s1 s2 IND_pos k_nonneg) as (Hsd0 & Hsl0).
     fold st0 in Hsd0, Hsl0.
     assert (Hqsl : qsl = firstn (length qsl) (skipn (Z.to_nat (0 + 1 - 1)) s2)).
     { subst qsl. replace (0 + 1 - 1) with 0 by lia. rewrite firstn_length.
@@ -224,7 +224,7 @@ Section Copy.
     assert (Hqz : zlen qsl = n).
     { subst qsl. unfold zlen. rewrite firstn_length, skipn_length. lia. }
     assert (Hr0 : row0_ok (0 + 1 - 1) st0).
-    { unfold row0_ok. subst st0. cbn [col]. unfold init_column. cbn [zrange map nth]. unfold init_entry. rewrite siq, IND1.
+    { unfold row0_ok. subst st0. cbn [col]. unfold init_column. cbn [zrange map nth]. unfold init_entry. rewrite siq.
       destruct (start_in_ref cfg); f_equal; lia. }
     assert (Hdg0 : diag_ok (0 + 1 - 1) st0).
     { unfold diag_ok. intros Hp0. assert (p = 0) by lia. subst p. replace (0 + 1 - 1 - 0) with 0 by lia. exact Hr0. }
@@ -240,7 +240,7 @@ End Copy.
 
 (** ---- Aligner.locate and the regular adapter classes *)
 Theorem locate_full_copy thr cfg wq ref query p :
-  indel_cost cfg = 1 -> start_in_query cfg = true -> stop_in_query cfg = true ->
+  1 <= indel_cost cfg -> start_in_query cfg = true -> stop_in_query cfg = true ->
   1 <= zlen ref -> min_overlap cfg <= zlen ref ->
   (forall L, 0 <= thr L) -> (forall L, thr L <= thr (zlen ref)) -> thr (zlen ref) <= zlen ref ->
   0 <= p -> p + zlen ref <= zlen query ->
@@ -258,7 +258,7 @@ From CV Require Import Generated.Flags Model.Adapters.
 (** regular 5', regular 3' and 'anywhere' adapters, indels enabled: an error-free copy of the whole
     adapter anywhere in the read is always reported as a match *)
 Theorem match_to_full_copy thr ad read p :
-  match a_type ad with Front | Back | Anywhere => True | _ => False end -> a_indels ad = true ->
+  match a_type ad with Front | Back | Anywhere => True | _ => False end ->
   1 <= zlen (a_seq ad) -> a_min_overlap ad <= zlen (a_seq ad) ->
   (forall L, 0 <= thr L) -> (forall L, thr L <= thr (zlen (a_seq ad))) -> thr (zlen (a_seq ad)) <= zlen (a_seq ad) ->
   0 <= p -> p + zlen (a_seq ad) <= zlen read ->
@@ -267,10 +267,10 @@ Theorem match_to_full_copy thr ad read p :
                                    (znth 0 (loc_s2 (ad_cfg ad) (a_wq ad) (ad_query ad read)) (p + t)) = true) ->
   match_to thr ad read <> None.
 Proof.
-  intros Hty Hind Hm Hov Hnn Hb Hkm Hp Hpn Hcopy.
+  intros Hty Hm Hov Hnn Hb Hkm Hp Hpn Hcopy.
   assert (Hloc : locate thr (ad_cfg ad) (a_wq ad) (a_seq ad) (ad_query ad read) <> None).
   { apply locate_full_copy with (p := p); auto.
-    - unfold ad_cfg, cfg_of. cbn [indel_cost]. rewrite Hind. reflexivity.
+    - apply ad_indel_cost_pos.
     - unfold ad_cfg, cfg_of, aligner_flags. cbn [start_in_query]. destruct (a_type ad); try contradiction; destruct (a_force_anywhere ad); vm_compute; reflexivity.
     - unfold ad_cfg, cfg_of, aligner_flags. cbn [stop_in_query]. destruct (a_type ad); try contradiction; destruct (a_force_anywhere ad); vm_compute; reflexivity.
     - unfold ad_query. destruct (class_upper_first (a_type ad)); [unfold zlen; rewrite map_length|]; exact Hpn. }
